@@ -18,8 +18,7 @@ var (
 
 // N: Calculates the Merkle root from integers.
 func N(v []types.ByteSequence, hashFunc func(types.ByteSequence) types.OpaqueHash) types.ByteSequence {
-	// [[]] should result zero hash
-	if len(v) == 0 || v[0] == nil {
+	if len(v) == 0 {
 		// H0 - return zero hash as bytes
 		return types.ByteSequence(zeroHash[:])
 	} else if len(v) == 1 {
@@ -47,8 +46,7 @@ func N(v []types.ByteSequence, hashFunc func(types.ByteSequence) types.OpaqueHas
 
 // Mb: Well-balanced binary Merkle function
 func Mb(v []types.ByteSequence, hashFunc func(types.ByteSequence) types.OpaqueHash) types.OpaqueHash {
-	// [[]] should go to N
-	if len(v) == 1 && v[0] != nil {
+	if len(v) == 1 {
 		return hashFunc(v[0])
 	} else {
 		// N returns ByteSequence, convert to OpaqueHash
@@ -58,7 +56,7 @@ func Mb(v []types.ByteSequence, hashFunc func(types.ByteSequence) types.OpaqueHa
 
 // Ps: Find the half based on the given index.
 func Ps(v []types.ByteSequence, i types.U32) []types.ByteSequence {
-	mid := types.U32(len(v) / 2)
+	mid := types.U32((len(v) + 1) / 2)
 	if i < mid {
 		return v[:mid] // Left half
 	} else {
@@ -81,7 +79,8 @@ func T(v []types.ByteSequence, i types.U32, hashFunc func(types.ByteSequence) ty
 	if len(v) <= 1 {
 		return output
 	}
-	mid := types.U32(len(v) / 2)
+	// split at ⌈|v|/2⌉, the same point N uses
+	mid := types.U32((len(v) + 1) / 2)
 	var siblingHalf []types.ByteSequence
 	var traverseHalf []types.ByteSequence
 	var newIndex types.U32
